@@ -313,6 +313,32 @@ func suiteEvalCore(o *Out, thorough bool, seed int64) {
 			}
 		}
 	}
+	// a value of any kind becomes text by formatting (under a string operand of + - == != < ..., in toString, for
+	// a string parameter of a host function): arrays and maps render their elements in order / in the order of
+	// their keys, nested to any depth, and a value that does not contain itself always has a rendering
+	{
+		data := wmap("a", "A4 Ii:1 "+ws("hi")+" N T", "e", "A0", "mm", wmap("b", "Ii8:3", "a", ws("x y"), "", "N", "\u00e9", "F", "B", "O0", "a b", "Iu64:18446744073709551615"),
+			"nest", "A3 A1 Iu64:7 "+wmap("k", "A0")+" A2 A0 A1 A0", "d", "D+:250:-2", "p", "P", "fl", "A2 G"+hx([]byte("0.1"))+" Ii:2", "tm", "A1 M1700000000123000000:0",
+			"deep", wmap("z", wmap("y", wmap("x", "A2 "+wmap("w", "N")+" "+ws(""))), "a", "A1 "+wmap("q", "T")), "h2", "H2", "em", "O0", "sp", "A3 "+ws("")+" "+ws(" ")+" "+ws("a b"))
+		for _, t := range []string{"'' + a", "toString(a)", "a + ''", "'' - a", "'' + e", "'' + em", "'' + mm", "toString(mm)", "'' + nest", "'' + deep", "'' + sp", "len('' + sp)",
+			"'' + [d, 1e40, -0, 0.1+0.2, 1/0, -1/0, 2.50, 1e-7, 12345678901234567890123456789012345678]", "'' + [0/0]", "'' + fl", "'' + tm", "'' + [p]", "'' + [p, null, d]", "'' + [a, mm]", "'' + [[[]]]", "'' + [[], [[]], '']",
+			"'[1 hi <nil> true]' == a", "a == '[1 hi <nil> true]'", "'[1 hi <nil> true]' != a", "'[1 hi <nil> true]' === a", "'x' < a", "'[' < a", "'[1 hi <nil> true]' <= a", "'map[' < mm", "'map[]' == em", "'[]' == e", "'[]' == []",
+			"h2(a, 1)", "h2(mm, 1)", "h2([1, [2, 'q']], 1)", "h2(e, 1)", "h2(deep, 1)", "h2([d, mm.b], d)", "h2(fl, 1)", "h2([mm], 1)", "len('' + mm)", "'' + [$v = 5, $v, this.$v]", "upper('' + mm)", "find('' + a, 'hi')",
+			"includes(a, 'hi')", "'' + [mm.b, mm.a, mm['']]", "'' + mapToArr([mm], 'b')", "left('' + nest, 9)", "'' + [true, false, null, 'null']", "('' + a) + ('' + e)", "replace('' + a, ' ', ',')", "'' + [1, 2][0]", "'' + [[1, 2], [3]][1]",
+			"trim('' + sp)", "'' + ['a', 'a b', '[', ']']", "'' + (a ?? 1)", "'' + (e || 1)", "typeof ('' + a)", "'' + [typeof a, typeof mm]", "'' + [a, a]", "'' + [nest, [nest]]"} {
+			obs, fails := implEval(t, 0, hosts, data)
+			line := fmt.Sprintf("EV\t%s\t0\t%s\t%s", hx([]byte(t)), hosts, data)
+			if obs == "parse-error" {
+				o.Stat("generator-parse-error")
+				continue
+			}
+			o.Case(line, obs, true)
+			o.Stat("outcome-" + obs[:1])
+			for _, f := range fails {
+				o.Fail(line, f)
+			}
+		}
+	}
 	for i := 0; i < n; i++ {
 		text := g.expr(0, 1+r.Intn(4))
 		data := coreData[r.Intn(len(coreData))]
